@@ -85,6 +85,20 @@ class Contract:
         pre_env = dict(env)
         ln = getattr(node, "lineno", "?")
         reg.note_call(interp.ctx, self)
+        memo_key = None
+        if self.pure_result and not self.modifies and constructing is None and not getattr(st, "binders", []):
+            # a pure callee: the same arguments (term-identical) give the same result object, also when the call is repeated in a specification
+            try:
+                flat = []
+                for k_ in sorted(env):
+                    flat.extend(V.leaves_of(env[k_]))
+                cache = interp.ctx.__dict__.setdefault("pure_cache", {}).setdefault(self.key(), [])
+                for key, val in cache:
+                    if len(key) == len(flat) and all((x is y) or (is_sym(x) and is_sym(y) and x.eq(y)) or (not is_sym(x) and not is_sym(y) and x == y) for x, y in zip(key, flat)):
+                        return val
+                memo_key = (cache, flat)
+            except Outside:
+                memo_key = None
         cst = State(dict(env), st.pc, st.guards, f.mod, f.cls)
         cst.env["__pre__"] = pre_env
         for name, expr in self.lets.items():
@@ -194,6 +208,8 @@ class Contract:
                 interp.assign(target, post_env[m], st)
         if returns_self:
             return post_env["self"]
+        if memo_key is not None:
+            memo_key[0].append((memo_key[1], result))
         return result
 
 
